@@ -1,7 +1,9 @@
 import Hannibal.Props.C02Current
+import Hannibal.Props.C02Guarded
 #print axioms Hannibal.C02_holds
 #print axioms Hannibal.C02_current
 #print axioms Hannibal.C02_split
 #print axioms Hannibal.C02t_holds
 #print axioms Hannibal.C02orig_holds
 #print axioms Hannibal.C02orig_current
+#print axioms Hannibal.C02g_holds
